@@ -101,7 +101,7 @@ func TestVerifC08Ntor(t *testing.T) {
 	}
 	c := ev.For("C08")
 	c.Rule("ntor: generated identity and ephemeral scalars (uniform, all-zero, all-ff, single bit; from KeypairFromHex and from NewKeypair with and without Elligator), node IDs, and peer public keys that are honest, arbitrary 32-byte strings, or one of the low-order u-coordinates in canonical and non-canonical form (u+p, bit 255 set); oracle: ServerHandshake and ClientHandshake equal the independent computation of the deployed ntor variant (KEY_SEED, AUTH, ok) using the math/big Montgomery ladder, honest pairs agree with each other, ok is false exactly when a Diffie-Hellman result is all-zero, flipping one generated bit of NODEID / B / X / Y changes both KEY_SEED and AUTH, CompareAuth is byte equality; non-trivial = a low-order or arbitrary peer key, or a mutated-transcript comparison; fingerprint = inputs")
-	c.Floor("degenerate-peer-key", 0.10)
+	c.Floor("degenerate-peer-key/ntor", 0.10)
 	degenerate := vf08DegeneratePoints()
 	rapid.Check(t, func(rt *rapid.T) {
 		id := detrand.Bytes(rapid.Uint64().Draw(rt, "nodeID"), 20)
@@ -124,7 +124,7 @@ func TestVerifC08Ntor(t *testing.T) {
 			xKP = vf08Keypair(vf08Scalar(rt, "x"))
 			yKP = vf08Keypair(vf08Scalar(rt, "y"))
 		}
-		cls := []string{}
+		cls := []string{"ntor"}
 		B := idKP.Public().Bytes()[:]
 		X := xKP.Public().Bytes()[:]
 		Y := yKP.Public().Bytes()[:]
@@ -272,4 +272,69 @@ func TestVerifC08Kdf(t *testing.T) {
 		}
 		c.Case(ev.Hash("kdf", seed, n, m), n > 32, []string{"kdf"}, func() any { return map[string]any{"unit": "kdf", "seed_len": len(seed), "n": n, "m": m} })
 	})
+}
+
+// TestVerifC08Concurrent: the handshake computations are pure functions also when
+// many connections run them at once.
+func TestVerifC08Concurrent(t *testing.T) {
+	c := ev.For("C08")
+	c.Rule("concurrent: 64 generated (identity, ephemeral, node ID) tuples computed sequentially first, then 16 goroutines (thorough 32, under -race) repeat ServerHandshake / ClientHandshake / Kdf over them at once; oracle: every concurrent result equals the sequential one")
+	type tup struct {
+		id       *NodeID
+		idKP     *Keypair
+		x, y     *Keypair
+		ok       bool
+		ks, auth []byte
+		okm      []byte
+	}
+	n := 64
+	tups := make([]tup, n)
+	for i := range tups {
+		nid, _ := NewNodeID(detrand.Bytes(0xc08000+uint64(i), 20))
+		tp := tup{id: nid, idKP: vf08Keypair(detrand.Bytes(0xc08100+uint64(i), 32))}
+		tp.x, _ = NewKeypair(i%2 == 0)
+		tp.y, _ = NewKeypair(true)
+		ok, ks, au := ServerHandshake(tp.x.Public(), tp.y, tp.idKP, tp.id)
+		tp.ok, tp.ks, tp.auth = ok, append([]byte(nil), ks.Bytes()[:]...), append([]byte(nil), au.Bytes()[:]...)
+		tp.okm = Kdf(tp.ks, 144)
+		tups[i] = tp
+	}
+	g, per := 16, 600
+	if ev.Thorough() {
+		g, per = 32, 2000
+	}
+	errs := make(chan string, g)
+	done := make(chan struct{})
+	for w := 0; w < g; w++ {
+		go func(w int) {
+			defer func() { done <- struct{}{} }()
+			for j := 0; j < per; j++ {
+				tp := tups[(w*131+j*17)%n]
+				okS, ksS, auS := ServerHandshake(tp.x.Public(), tp.y, tp.idKP, tp.id)
+				okC, ksC, auC := ClientHandshake(tp.x, tp.y.Public(), tp.idKP.Public(), tp.id)
+				if okS != tp.ok || okC != tp.ok || !bytes.Equal(ksS.Bytes()[:], tp.ks) || !bytes.Equal(ksC.Bytes()[:], tp.ks) || !bytes.Equal(auS.Bytes()[:], tp.auth) || !bytes.Equal(auC.Bytes()[:], tp.auth) {
+					errs <- fmt.Sprintf("VIOL[c08-not-a-function-under-concurrency]: handshake for node id %x computed concurrently differs from the sequential result", tp.id.Bytes()[:])
+					return
+				}
+				if !bytes.Equal(Kdf(tp.ks, 144), tp.okm) {
+					errs <- "VIOL[c08-not-a-function-under-concurrency]: Kdf computed concurrently differs from the sequential result"
+					return
+				}
+			}
+		}(w)
+	}
+	for w := 0; w < g; w++ {
+		<-done
+	}
+	select {
+	case m := <-errs:
+		t.Fatalf("%s", m)
+	default:
+	}
+	c.Bulk(int64(g*per), 0)
+	c.Class("concurrent-calls", int64(g*per))
+	for i := range tups {
+		i := i
+		c.Case(ev.Hash("conc", tups[i].ks), true, []string{"concurrent-tuple"}, func() any { return map[string]any{"unit": "concurrent", "node_id": ev.Hex(tups[i].id.Bytes()[:])} })
+	}
 }
